@@ -80,3 +80,4 @@ def std_globals(c):
     m = c.int("MAX_STR_INT")
     c.requires(z3.Or(m.t == 0, m.t >= 640), "liquid.limits.MAX_STR_INT is 0 (unlimited) or >= 640")
     c.override_global("liquid.limits", "MAX_STR_INT", m)
+    c.pools["MAX_STR_INT"] = [4300]  # CPython's default int-to-str digit limit (the value the native side runs with)
